@@ -25,7 +25,7 @@ PROP = "C14"
 DPS = 60
 TOL = 1e-30
 OP_WALL_S = 20.0  # wall guard only: exceeding it is *inconclusive*, never a verdict
-OP_ID_BUDGET = 200000  # logical step budget per op (calls of the identity seam): deterministic
+OP_ID_BUDGET = 400000  # logical step budget per op (seam calls): bounds a run deterministically; exceeding it is inconclusive
 
 VECTOR_TAGS = {"v", "vf", "vzero", "vadd", "vscale", "vneg", "cross"}
 SCALAR_TAGS = {"s", "q", "t", "sf", "dot", "mixed", "norm", "sadd", "smul", "spow", "sneg", "sinv"}
@@ -914,7 +914,10 @@ def child_run(job: dict) -> dict:
             except OpTimeout:
                 err = ("wall", "")
             except StepBudget:
-                err = ("nontermination", f"more than {OP_ID_BUDGET} logical steps (seam calls) in one operation")
+                # a big multilinear expansion is legitimately expensive; the logical budget only bounds
+                # the run, it is not a verdict (every non-termination seen so far re-enters a constructor
+                # and ends in RecursionError, which is deterministic and is a verdict)
+                err = ("budget", "")
             except RecursionError:
                 err = ("nontermination", "RecursionError; cycle: " + _tb_cycle())
             except Exception as e:  # pylint: disable=broad-except
@@ -923,9 +926,9 @@ def child_run(job: dict) -> dict:
                 signal.setitimer(signal.ITIMER_REAL, 0)
                 ids.begin_op(None)
             faults["evict_mid_op"] += ids.evicted - ev_before
-            if err is not None and err[0] == "wall":
-                inconclusive.append("op-wall-timeout")
-                outcome = "wall"
+            if err is not None and err[0] in ("wall", "budget"):
+                inconclusive.append("op-wall-timeout" if err[0] == "wall" else "op-step-budget")
+                outcome = err[0]
             elif err is not None:
                 violation = {"oracle": err[0], "detail": err[1], "step": step, "op": op}
                 outcome = err[0]
